@@ -218,7 +218,6 @@ package kgo
 //@ func (o *ProcessFetchPartitionOpts) maybeKeepRecord(fp *FetchPartition, record *Record, abort bool) (kept bool)
 //@   prop C06 C05
 //@   nopanic
-//@   requires record.Offset < 9223372036854775807     // offsets are below MaxInt64 (listed assumption)
 //@   modifies o.Offset, fp.Records, elems(fp.Records)
 //@   ensures record.Offset < old(o.Offset) ==> !kept && o.Offset == old(o.Offset)
 //@   ensures record.Offset >= old(o.Offset) ==> o.Offset == record.Offset + 1
